@@ -41,9 +41,19 @@ def _read_consts():
         txt = open(os.path.join(core.LEAN, "DSGen", "TDigest.lean")).read()
         for m in re.finditer(r"def (tdigest_\w+) : Nat := (\d+)", txt):
             d[m.group(1)] = int(m.group(2))
+        for m in re.finditer(r"def (tdigest_\w+) : Bool := (true|false)", txt):
+            d[m.group(1)] = m.group(2) == "true"
     except OSError:
         pass
     return d
+
+
+def add_overflow_safe():
+    """shape of centroid::add in the current header (read by the translator): overflow-safe (repaired) or plain"""
+    return bool(gen_consts().get("tdigest_CENTROID_ADD_OVERFLOW_SAFE", False))
+
+
+ADD_OVERFLOW_KEY = "minmax-not-exact-centroid-add-overflow"
 
 
 def capacity(k):
@@ -63,6 +73,14 @@ class Ty:
         self.nan = NAN64 if t == "d" else NAN32
         self.inf = ("7ff0000000000000", "fff0000000000000") if t == "d" else ("7f800000", "ff800000")
         self.qtol = 1e-12 if t == "d" else 2e-6
+        self.fmax = 1.7976931348623157e308 if t == "d" else 3.4028234663852886e38
+        self.henc = h64 if t == "d" else h32
+
+    def huge(self, rng):
+        """a finite value within a factor 4 of the largest finite T, either sign (hex)"""
+        r = rng.random()
+        m = self.fmax if r < 0.2 else (self.fmax / 2 if r < 0.3 else self.fmax * rng.uniform(0.25, 1.0))
+        return self.henc(m if rng.random() < 0.5 else -m)
 
 
 def stream(rng, n, allow_nan=True):
@@ -226,9 +244,11 @@ class TdPart(Part):
 
     # ------------------------------------------------------------------ the property statement on one implementation trace
     check_queries = True
+    check_dump = True
 
     def oracle(self, hist, impl_out):
         bad = []
+        hugeseen = {}  # id -> the digest holds a finite value within 2^-16 of the largest finite T
         ty = {}       # id -> Ty
         kk = {}
         vals = {}     # id -> accepted finite/inf values (python floats), merged ones included
@@ -250,7 +270,7 @@ class TdPart(Part):
                         bad.append(("constructor-rejects-valid-k", o[:80], i))
                     continue
                 sid = int(w[1])
-                ty[sid] = Ty(w[2]); kk[sid] = int(w[3]); vals[sid] = []; epoch[sid] = (None, None)
+                ty[sid] = Ty(w[2]); kk[sid] = int(w[3]); vals[sid] = []; epoch[sid] = (None, None); hugeseen[sid] = False
                 if int(w[3]) < gen_consts()["tdigest_MIN_K"]:
                     bad.append(("constructor-accepts-k-below-minimum", o[:80], i))
             else:
@@ -267,8 +287,11 @@ class TdPart(Part):
                     x = T.dec(hx)
                     if not math.isnan(x):
                         vals[sid].append(x)
+                        if math.isfinite(x) and abs(x) >= T.fmax / 65536.0:
+                            hugeseen[sid] = True
             elif op == "merge":
                 vals[sid] = vals[sid] + vals[int(w[2])]
+                hugeseen[sid] = hugeseen[sid] or hugeseen.get(int(w[2]), False)
             V = vals[sid]
             # ---- weight / extremes on every observed state
             tw = int(stw[1])
@@ -285,12 +308,30 @@ class TdPart(Part):
                 nc, nb = int(stw[3]), int(stw[4])
                 mn, mx = T.dec(stw[5]), T.dec(stw[6])
             if V:
+                # pinned shape of centroid::add + values near the largest finite T: the known overflow defect
+                # (its own key, so that every other wrong extreme is still reported); repaired shape: exact, always
+                ovf = hugeseen[sid] and not add_overflow_safe()
                 if mn is None or mn != min(V):
-                    bad.append(("min-not-exact", "min=%r expected=%r" % (mn, min(V)), i))
+                    bad.append((ADD_OVERFLOW_KEY if ovf else "min-not-exact", "min=%r expected=%r" % (mn, min(V)), i))
                 if mx is None or mx != max(V):
-                    bad.append(("max-not-exact", "max=%r expected=%r" % (mx, max(V)), i))
+                    bad.append((ADD_OVERFLOW_KEY if ovf else "max-not-exact", "max=%r expected=%r" % (mx, max(V)), i))
             if nc is not None and nc > capacity(kk[sid]):
                 bad.append(("centroid-count-exceeds-capacity", "centroids=%d k=%d capacity=%d" % (nc, kk[sid], capacity(kk[sid])), i))
+            if op == "dump" and self.check_dump and res[:1] == ["D"] and not (hugeseen[sid] and not add_overflow_safe()):
+                toks = res[1:]
+                bi = toks.index("B")
+                cents = [(T.dec(t.split(":")[0]), int(t.split(":")[1])) for t in toks[:bi]]
+                nbuf = len(toks) - bi - 1
+                if V and len(V) > 1:
+                    if sum(wt for _, wt in cents) + nbuf != len(V):
+                        bad.append(("centroid-weights-do-not-sum-to-total", "%d+%d vs %d" % (sum(wt for _, wt in cents), nbuf, len(V)), i))
+                    ms = [m for m, _ in cents]
+                    if any(a > b for a, b in zip(ms, ms[1:])):
+                        bad.append(("centroids-not-sorted", repr(ms[:8]), i))
+                    if any(not (mn <= m <= mx) for m in ms):
+                        bad.append(("centroid-mean-outside-min-max", "min=%r max=%r" % (mn, mx), i))
+                    if any(wt < 1 for _, wt in cents):
+                        bad.append(("centroid-weight-zero", "", i))
             if not self.check_queries:
                 continue
             # ---- queries: one epoch = same digest, same state after the call
@@ -371,21 +412,6 @@ class TdPart(Part):
                         bad.append(("pmf-sum-not-one", repr(sum(c)), i))
                     if any(x < 0 for x in c):
                         bad.append(("pmf-negative-mass", repr(c[:6]), i))
-            elif op == "dump" and not threw:
-                toks = res[1:]
-                bi = toks.index("B")
-                cents = [(T.dec(t.split(":")[0]), int(t.split(":")[1])) for t in toks[:bi]]
-                nbuf = len(toks) - bi - 1
-                if V and len(V) > 1:
-                    if sum(wt for _, wt in cents) + nbuf != len(V):
-                        bad.append(("centroid-weights-do-not-sum-to-total", "%d+%d vs %d" % (sum(wt for _, wt in cents), nbuf, len(V)), i))
-                    ms = [m for m, _ in cents]
-                    if any(a > b for a, b in zip(ms, ms[1:])):
-                        bad.append(("centroids-not-sorted", repr(ms[:8]), i))
-                    if any(not (mn <= m <= mx) for m in ms):
-                        bad.append(("centroid-mean-outside-min-max", "min=%r max=%r" % (mn, mx), i))
-                    if any(wt < 1 for _, wt in cents):
-                        bad.append(("centroid-weight-zero", "", i))
         return bad
 
     @staticmethod
@@ -438,11 +464,26 @@ class TdPart(Part):
 
 
 class InfPart(TdPart):
-    """Streams with +-inf (and NaN): safety (sanitizers, no hang), weight and extremes only.  The centroid means may
-    become NaN (inf - inf), after which the order of std::stable_sort is unspecified: no model comparison, no query oracle."""
+    """Streams with +-inf (and NaN) and with finite values within a factor 4 of the largest finite T (mixed signs, mixed
+    with small values), several merges incl. self-merges: safety (sanitizers, no hang), total weight and EXACT extremes.
+    The centroid means may become NaN (inf - inf), after which the order of std::stable_sort is unspecified: no model
+    comparison, no query oracle, no centroid-list oracle."""
     name = "inf"
     compare_model = False
     check_queries = False
+    check_dump = False
+
+    def huge_mix(self, rng, ty, enc):
+        """overwrite a share of the encoded stream with near-overflow finite values (and a few small negative ones)"""
+        p = rng.choice([0.02, 0.2, 0.5])
+        small = [ty.enc(-47.0), ty.enc(-49.0), ty.enc(3.0)]
+        for j in range(len(enc)):
+            r = rng.random()
+            if r < p:
+                enc[j] = ty.huge(rng)
+            elif r < p + 0.1:
+                enc[j] = rng.choice(small)
+        return enc
 
     def generate(self, rng, tier):
         hs = []
@@ -452,22 +493,18 @@ class InfPart(TdPart):
             ty = Ty(rng.choice(["d", "f"]))
             h = []
             nd = rng.choice([1, 2, 3])
-            pools = [[] for _ in range(nd)]
+            with_huge = rng.random() < 0.4
             for s in range(nd):
                 k = rng.choice(KS)
                 h.append("new %d %s %d" % (s, ty.t, k))
-                n = self.sizes(rng, k, tier)
+                n = self.sizes(rng, k, tier) if not with_huge else rng.choice([2, 5, 9, 17, 40, 100, buffer_capacity(k) + 1])
                 vals = stream(rng, n)
                 enc = self.enc_vals(ty, vals)
                 for j in range(len(enc)):
-                    if rng.random() < rng.choice([0.002, 0.02, 0.3]):
+                    if rng.random() < rng.choice([0.002, 0.02, 0.3]) and not (with_huge and rng.random() < 0.7):
                         enc[j] = rng.choice(ty.inf)
-                if tier != "quick" or rng.random() < 0.5:
-                    if rng.random() < 0.3:   # overflow-prone magnitudes
-                        big = ["7fefffffffffffff", "ffefffffffffffff", "7fe0000000000000"] if ty.t == "d" else ["7f7fffff", "ff7fffff", "7f000000"]
-                        for j in range(len(enc)):
-                            if rng.random() < 0.2:
-                                enc[j] = rng.choice(big)
+                if with_huge:
+                    enc = self.huge_mix(rng, ty, enc)
                 i = 0
                 while i < len(enc):
                     c = rng.choice([1, 17, 200, 1000])
@@ -476,8 +513,10 @@ class InfPart(TdPart):
                         self.queries(rng, h, ty, s, [0.0, 1.0], tier)
                         if rng.random() < 0.2:
                             h.append("quant %d %s" % (s, NAN64))
-            for _ in range(rng.randrange(0, 4)):
+            for _ in range(rng.randrange(0, 4) + (rng.randrange(1, 4) if with_huge else 0)):
                 a, b = rng.randrange(nd), rng.randrange(nd)
+                if with_huge and rng.random() < 0.4:
+                    b = a                                   # self-merge
                 h.append("merge %d %d" % (a, b))
                 self.queries(rng, h, ty, a, [0.0, 1.0], tier)
             hs.append(h)
@@ -485,6 +524,59 @@ class InfPart(TdPart):
 
     def nontrivial_key(self, hist, impl_out):
         return None
+
+
+class BigPart(InfPart):
+    """FINITE values only, within a factor 4 of the largest finite T with mixed signs, mixed with small values; updates,
+    compress, serialize, merge trees incl. self-merges, centroid dumps; no rank/quantile queries (their interpolation
+    overflows at these magnitudes: out of scope).  With the overflow-safe centroid::add the model is compared bit for bit
+    (this is the tie of the fallback branch) and total weight, exact extremes, sorted centroids with means inside
+    [min,max] are demanded; with the pinned shape the part runs for safety and weight only (known finding)."""
+    name = "big"
+    check_queries = False
+    check_dump = True
+
+    @property
+    def compare_model(self):
+        return add_overflow_safe()
+
+    def generate(self, rng, tier):
+        hs = []
+        if os.environ.get("VERIF_C17_DISTINCT"):
+            return hs
+        for _ in range(40 if tier == "quick" else 300):
+            ty = Ty(rng.choice(["d", "f"]))
+            h = []
+            nd = rng.choice([1, 2, 3])
+            for s in range(nd):
+                k = rng.choice(KS)
+                h.append("new %d %s %d" % (s, ty.t, k))
+                n = rng.choice([2, 5, 9, 17, 40, 100, 300, buffer_capacity(k) + 1, 2 * buffer_capacity(k) + 3])
+                enc = self.huge_mix(rng, ty, self.enc_vals(ty, stream(rng, n, allow_nan=rng.random() < 0.2)))
+                i = 0
+                while i < len(enc):
+                    c = rng.choice([1, 9, 17, 200, 1000])
+                    h.append("updn %d %s" % (s, " ".join(enc[i:i + c]))); i += c
+                    r = rng.random()
+                    if r < 0.3:
+                        h.append("compress %d" % s)
+                    elif r < 0.4:
+                        h.append("ser %d" % s)
+                    if rng.random() < 0.3:
+                        h.append("dump %d" % s)
+            for _ in range(rng.randrange(1, 6)):
+                a, b = rng.randrange(nd), rng.randrange(nd)
+                if rng.random() < 0.4:
+                    b = a
+                h.append("merge %d %d" % (a, b))
+                h.append("dump %d" % a)
+                if rng.random() < 0.3:
+                    h.append("updn %d %s" % (a, " ".join(ty.huge(rng) for _ in range(rng.choice([1, 3, 30])))))
+            for s in range(nd):
+                h.append("compress %d" % s)
+                h.append("dump %d" % s)
+            hs.append(h)
+        return hs
 
 
 class C17(Spec, TdPart):
@@ -497,7 +589,9 @@ class C17(Spec, TdPart):
             "capacity/capacity+1), interleaved with compress(), serialize(), get_rank/get_quantile (incl. out-of-range, NaN, +-inf arguments), "
             "CDF/PMF with valid and malformed split points, query grids derived from the digest's own centroids (every mean, midpoints, "
             "min, max, +-1, an even grid; every centroid centre +-0.5 in weight), then a random merge tree (incl. self-merges, different k) "
-            "with further updates and queries; part `inf`: streams with +-inf / near-overflow magnitudes, safety + weight + extremes only. "
+            "with further updates and queries; part `inf`: streams with +-inf and with finite values within a factor 4 of the largest finite T (mixed signs, several merges "
+            "incl. self-merges): safety + weight + exact extremes; part `big`: such finite streams only, model compared bit for bit "
+            "(tie of the overflow fallback of centroid::add) + weight + exact extremes + sorted centroids with means in [min,max]. "
             "A history is non-trivial when some digest was clustered (centroids+buffered < total weight) and queried; distinct = distinct "
             "(per-digest final weight, centroid count, content fold; configurations) signature")
     trusted_base = ["Lean 4.33 kernel", "axioms: propext, Quot.sound, Classical.choice",
@@ -511,17 +605,20 @@ class C17(Spec, TdPart):
                    "weights are natural numbers (no uint32/uint64 wrap-around: fewer than 2^32 values)",
                    "rounding and overflow of float/double arithmetic are not modelled; the trace oracle allows 1e-12 (double) / 2e-6 (float) of the "
                    "value range on quantile range/monotonicity checks and is exact everywhere else",
-                   "finite values whose range width overflows the type (e.g. doubles near +-1e308 of both signs) overflow in centroid::add "
-                   "(`other.mean_ - mean_`) and yield NaN means / NaN quantiles in the implementation AND in the Float model alike; such "
-                   "streams are exercised for safety only (part `inf`), their query results are not judged",
+                   "values within a factor 4 of the largest finite T: centroid::add of the pinned tree overflowed there (means -inf/NaN, wrong "
+                   "min/max after merges: finding minmax-not-exact-centroid-add-overflow, repaired by the overflow-safe shape, which the "
+                   "translator recognises and the Float model follows); with the repaired shape weight, exact extremes and the centroid list "
+                   "are demanded on such streams (parts `inf`, `big`); get_rank / get_quantile interpolation still overflows at these "
+                   "magnitudes (inf/inf), query results there are not judged",
                    "scale function abstract in the theorems; td_extremes_singleton needs only `max 1 normalizer = 0` (discharged for k2)",
                    "digests read from foreign (reference-format) images are outside C17: their first/last centroids need not be singletons"]
 
     def parts(self):
-        return [self, INF]
+        return [self, INF, BIG]
 
 
 INF = InfPart()
+BIG = BigPart()
 SPEC = C17()
 
 CLAIM = dict(
